@@ -38,6 +38,9 @@ impl Composer {
         // high = floor(input / 2^num_bits), recomposed from the high input
         // bits, range-checked so it cannot absorb a different low part.
         let input_bits = self[input].to_bits();
+        #[cfg(feature = "verif")]
+        let input_bits =
+            crate::verif::host_view_bits(input.index()).unwrap_or(input_bits);
         let high_value = recompose_bits(&input_bits, num_bits, 256);
         let high = self.append_witness(high_value);
         self.range_check(high, high_bits);
@@ -101,6 +104,11 @@ impl Composer {
         // Split the low `N` bits off `witness` as a bounded witness, then bind
         // it back to `witness` through the shared truncation split.
         let low_value = recompose_bits(&self[witness].to_bits(), 0, N);
+        #[cfg(feature = "verif")]
+        let low_value = match crate::verif::host_view_bits(witness.index()) {
+            Some(bits) => recompose_bits(&bits, 0, N),
+            None => low_value,
+        };
         let low = self.append_witness(low_value);
         self.range_check(low, N);
         self.bind_truncation_split(witness, low, N);
